@@ -27,6 +27,33 @@ struct DateTimeInfo<'py> {
     pub is_datetime: bool,
 }
 
+impl DateTimeInfo<'_> {
+    // Carries a day that left its month (after the shift to UTC)
+    // into the month and the year.
+    fn normalize_date(&mut self) {
+        if self.day < 1 {
+            self.month -= 1;
+
+            if self.month < 1 {
+                self.month = 12;
+                self.year -= 1;
+            }
+
+            self.day = DAYS_PER_MONTHS[usize::from(helpers::is_leap(self.year))][self.month as usize];
+        } else if self.day
+            > DAYS_PER_MONTHS[usize::from(helpers::is_leap(self.year))][self.month as usize]
+        {
+            self.day = 1;
+            self.month += 1;
+
+            if self.month > 12 {
+                self.month = 1;
+                self.year += 1;
+            }
+        }
+    }
+}
+
 impl PartialEq for DateTimeInfo<'_> {
     fn eq(&self, other: &Self) -> bool {
         (
@@ -207,7 +234,7 @@ pub fn precise_diff<'py>(
             if dtinfo1.second < 0 {
                 dtinfo1.second += 60;
                 dtinfo1.minute -= 1;
-            } else if dtinfo1.second > 60 {
+            } else if dtinfo1.second >= 60 {
                 dtinfo1.second -= 60;
                 dtinfo1.minute += 1;
             }
@@ -215,7 +242,7 @@ pub fn precise_diff<'py>(
             if dtinfo1.minute < 0 {
                 dtinfo1.minute += 60;
                 dtinfo1.hour -= 1;
-            } else if dtinfo1.minute > 60 {
+            } else if dtinfo1.minute >= 60 {
                 dtinfo1.minute -= 60;
                 dtinfo1.hour += 1;
             }
@@ -223,10 +250,12 @@ pub fn precise_diff<'py>(
             if dtinfo1.hour < 0 {
                 dtinfo1.hour += 24;
                 dtinfo1.day -= 1;
-            } else if dtinfo1.hour > 24 {
+            } else if dtinfo1.hour >= 24 {
                 dtinfo1.hour -= 24;
                 dtinfo1.day += 1;
             }
+
+            dtinfo1.normalize_date();
         }
 
         dtinfo1.total_seconds = dtinfo1.hour * SECS_PER_HOUR as i32
@@ -252,7 +281,7 @@ pub fn precise_diff<'py>(
             if dtinfo2.second < 0 {
                 dtinfo2.second += 60;
                 dtinfo2.minute -= 1;
-            } else if dtinfo2.second > 60 {
+            } else if dtinfo2.second >= 60 {
                 dtinfo2.second -= 60;
                 dtinfo2.minute += 1;
             }
@@ -260,7 +289,7 @@ pub fn precise_diff<'py>(
             if dtinfo2.minute < 0 {
                 dtinfo2.minute += 60;
                 dtinfo2.hour -= 1;
-            } else if dtinfo2.minute > 60 {
+            } else if dtinfo2.minute >= 60 {
                 dtinfo2.minute -= 60;
                 dtinfo2.hour += 1;
             }
@@ -268,10 +297,12 @@ pub fn precise_diff<'py>(
             if dtinfo2.hour < 0 {
                 dtinfo2.hour += 24;
                 dtinfo2.day -= 1;
-            } else if dtinfo2.hour > 24 {
+            } else if dtinfo2.hour >= 24 {
                 dtinfo2.hour -= 24;
                 dtinfo2.day += 1;
             }
+
+            dtinfo2.normalize_date();
         }
 
         dtinfo2.total_seconds = dtinfo2.hour * SECS_PER_HOUR as i32
